@@ -21,12 +21,14 @@ fn models(tier: Tier) -> Vec<Model> {
             v.extend(gen::m2(0).into_iter().step_by(1201));
             v.extend(gen::m3(0).into_iter().step_by(263));
             v.extend(gen::m5(0).into_iter().step_by(97));
+            v.extend(gen::m7(0).into_iter().step_by(53));
         }
         Tier::Thorough => {
             v.extend(gen::m1(1).into_iter().step_by(17));
             v.extend(gen::m2(1).into_iter().step_by(2003));
             v.extend(gen::m3(1).into_iter().step_by(97));
             v.extend(gen::m5(1).into_iter().step_by(23));
+            v.extend(gen::m7(1).into_iter().step_by(11));
         }
     }
     v
